@@ -317,6 +317,50 @@ class NPShim:
             raise Unsupported("np.median on symbolic data")
         return real_np.median(x, *a, **k)
 
+    def resize(self, a, new_shape):
+        if not isinstance(a, A):
+            return real_np.resize(a, new_shape)
+        n = _dim(new_shape) if not isinstance(new_shape, (tuple, list)) else _dim(new_shape[0])
+        cells = a.cells
+        if not cells:
+            return self.zeros(n, a.dtype)
+        return A([cells[i % len(cells)] for i in _builtin_range(n)], a.dtype)
+
+    def tile(self, a, reps):
+        if not isinstance(a, A):
+            return real_np.tile(a, reps)
+        return A(a.cells * int(reps), a.dtype)
+
+    def append(self, a, values, axis=None):
+        if not isinstance(a, A) and not isinstance(values, A):
+            return real_np.append(a, values, axis)
+        ac = a.cells if isinstance(a, A) else list(real_np.asarray(a).tolist())
+        vc = values.cells if isinstance(values, A) else (list(values) if isinstance(values, (list, tuple)) else [values])
+        return A(ac + vc, a.dtype if isinstance(a, A) else values.dtype)
+
+    def flip(self, a, axis=None):
+        if not isinstance(a, A):
+            return real_np.flip(a, axis)
+        return a[::-1]
+
+    def maximum(self, a, b):
+        if isinstance(a, A):
+            return a._ew(b, lambda x, y: ite(_ltv(x, y), y, x), a.dtype)
+        if isinstance(b, A):
+            return b._ew(a, lambda x, y: ite(_ltv(x, y), y, x), b.dtype)
+        if is_sym(a) or is_sym(b) or isinstance(a, SF) or isinstance(b, SF):
+            return ite(_ltv(a, b), b, a)
+        return real_np.maximum(a, b)
+
+    def minimum(self, a, b):
+        if isinstance(a, A):
+            return a._ew(b, lambda x, y: ite(_ltv(y, x), y, x), a.dtype)
+        if isinstance(b, A):
+            return b._ew(a, lambda x, y: ite(_ltv(y, x), y, x), b.dtype)
+        if is_sym(a) or is_sym(b) or isinstance(a, SF) or isinstance(b, SF):
+            return ite(_ltv(b, a), b, a)
+        return real_np.minimum(a, b)
+
     def sort(self, x, *a, **k):
         """ascending sort of a 1-D array; symbolic cells go through a compare-exchange network (no forking)"""
         if not isinstance(x, A):
@@ -363,6 +407,12 @@ class _SInt64(real_np.int64):
 
 
 NPShim.int64 = _SInt64
+
+
+def _ltv(a, b):
+    if isinstance(b, SF) and not isinstance(a, SF):
+        return SF.of(a).lt(b)
+    return a < b
 
 
 def _no_exp(x):
